@@ -128,7 +128,7 @@ PROPS["C03"] = dict(
     parts=[dict(bin="e1_ef", opts={"prop": "C03"})],
     rule=EF_RULE + "; plus every invalid push (out of order, above u, (n+1)-th) after every prefix of every sequence with n <= 3",
     alphabet="builders push / extend / From<slice> / concurrent set in every permutation of indices (n<=4); back-ends plain, EfSeq, EfDict, EfSeqDict, SelectZeroAdapt(SelectAdapt), SelectZeroAdaptConst<2,1>(SelectAdaptConst<2,1>), SelectZeroAdapt(Select9(Rank9)), SelectZeroSmall(SelectSmall(RankSmall<1,9>))",
-    bound={"quick": "N=5, M=12, 4-6 values of u; n<=12 in (b)", "thorough": "N=6, M=13, 6 values of u; n<=40 in (b); all run lengths 1..=200 in (d)"},
+    bound={"quick": "N=6, M=14, 4-6 values of u; n<=12 in (b); every delivery of an invalid value (push, one-element extend, extend with the valid rest) after every delivery of the valid prefix, all non-monotone slices of <= 4 values over 5 values given to From", "thorough": "N=8, M=16, 6 values of u; n<=40 in (b); all run lengths 1..=200 in (d)"},
     oracle="the sequence itself: len, get(i) all i, iter/into_iter with exact len() before every next, iter_from(k)/into_iter_from(k) for every k in 0..=n; an invalid push panics and the builder continues as if it had not happened",
     assumptions=STRICT,
 )
